@@ -209,7 +209,8 @@ func runC04(c *Ctx) {
 				g.fillValue(reflect.ValueOf(x).Elem())
 				x.Subject = kr.by["user"].pub
 				// source networks stay ASCII: Unicode white space and case folding are outside the model
-				x.Src = []string{"", "10.0.0.0/8", "10.0.0.0/8, 192.168.1.0/24", "A::/16,a::/16, ,10.1.0.0/16", " 10.2.0.0/16 ,FE80::/10"}[g.rng.Intn(5)]
+				x.Src = []string{"", "10.0.0.0/8", "10.0.0.0/8, 192.168.1.0/24", "A::/16,a::/16, ,10.1.0.0/16", " 10.2.0.0/16 ,FE80::/10",
+					" 192.0.2.0/24", "10.3.0.0/16 ", "\tFE80::/10", " "}[g.rng.Intn(9)]
 				src, s = x, kr.by["account"]
 			case "activation":
 				x := &v1.ActivationClaims{}
